@@ -41,15 +41,15 @@ LEVEL_TEXT = ('Unbounded Lean theorems: (0) ALL SIZES of the hand-modelled surfa
               'generators, all products computed in the lanes of one number; exhaustive certificates: enumeration of '
               'every Pauli of weight < d on per-qubit effect tables, sound by bilinearity of the symplectic form and '
               'C04). Instance theorems: for all 16 exported classes, every supported size up to the table bound (2-D '
-              'L<=6, 3-D L<=4, n<=400; 455 of 462 instances) has IsDistance n H code.d, kernel-checked (decide +kernel) '
+              'L<=6, 3-D L<=4, n<=400; 458 of 462 instances) has IsDistance n H code.d, kernel-checked (decide +kernel) '
               'on tables and certificates regenerated from /repo on every run, so the theorems are re-proved against '
               'the current source. The model of `d` (min weight over listed logicals) is tied to code.d by a '
               'differential stream over all table sizes and deformations.')
 LEVEL_NOTE = ('trusted: Lean kernel + standard axioms; translator harness/regen_codes.py (packs the matrices the '
               'current source emits); certificate search harness/regen_dist.py is NOT trusted (Lean checks every '
-              'certificate). Not covered by a kernel-checked theorem (no certificate found: 6.6.6 colour codes have '
-              'd*d > n so disjoint representatives cannot exist, and the enumeration below d is too large): '
-              'Color666PlanarCode L=3..6 and Color666ToricCode L=2..4; Color666PlanarCode L=3 is checked natively '
+              'certificate). Not covered by a kernel-checked theorem (no certificate found: the triangular 6.6.6 colour '
+              'code has d*d > n so disjoint representatives cannot exist, and the enumeration below d is too large): '
+              'Color666PlanarCode L=3..6; Color666PlanarCode L=3 is checked natively '
               '(native_checked, thorough tier: 5.7 million pure X/Z operators below d=7). Sizes beyond the table bound and deformed codes are evaluated natively '
               'with the same proved-sound checker (trusted in addition: Lean compiler/runtime); deformation invariance of '
               'the distance is proved in general (distance_deformation_invariant), so for deformed codes the native '
@@ -82,7 +82,6 @@ PROPERTY_MODULES = ['PanqecVerif.Properties.C17'] + [f'PanqecVerif.Properties.C1
 EXPECTED_UNCERTIFIED = {
     ('Color666PlanarCode', (3, 3)), ('Color666PlanarCode', (4, 4)),
     ('Color666PlanarCode', (5, 5)), ('Color666PlanarCode', (6, 6)),
-    ('Color666ToricCode', (2, 2)), ('Color666ToricCode', (3, 3)), ('Color666ToricCode', (4, 4)),
 }
 
 
